@@ -378,9 +378,11 @@ def trigger(
             raise
 
         # Capture exceptions for notification events
+        # (a handler may be any callable: functools.partial objects and
+        #   instances with __call__ have no __name__)
         LOGGER.error(
             f"Exception raised in user's 'evt.{event.name}' "
-            f"event handler '{func.__name__}'"
+            f"event handler '{getattr(func, '__name__', repr(func))}'"
         )
         LOGGER.exception(exc)
 
